@@ -494,3 +494,148 @@ Proof.
   split. { cbn. repeat constructor; cbn; intuition discriminate. }
   repeat split; vm_compute; reflexivity.
 Qed.
+
+(* ================================================================== 7. NORM PRESERVATION AND SHOTS: the end-to-end theorem without `0 < total`, without the division, for any number of shots
+   Proofs/NormPres.v, NormPresE2E.v, SimLoopShots.v.  Vocabulary (C03_norm_vocabulary below):
+     nrm2 n psi = sum over ALL bit lists b of length n of |psi b|^2 (Base/Mat.v: bsum);
+     unitary2 U / unitary4 G: entrywise sum_k conj(U k i) * U k j = delta i j;  unitary_item: the item's matrix is unitary;
+     seq_perform / par_perform: _perform_simulation (C09's model Model/Shots.v: perform_seq / perform_par) around a shot that
+       returns the same vector v whatever random samples it reads -- `mk v` is ANY reader program with that property (Ret v
+       reads nothing): r_sum = zeros(2**nqubit); shots times r_sum += shot; r_sum / shots. *)
+From Coq Require Import Permutation.
+Require Import QG.Base.Mat QG.Model.Shots QG.Proofs.NormPres QG.Proofs.NormPresE2E QG.Proofs.SimLoopShots.
+
+Theorem C03_norm_vocabulary :
+  (forall n (psi : state C), nrm2 n psi = bsum Rdefinitions.R Rplus n (fun b => (Cmod (psi b) ^ 2)%R)) /\
+  (forall U : m2 C, unitary2 U <->
+     forall i j, Cplus (Cmult (Cconj (U false i)) (U false j)) (Cmult (Cconj (U true i)) (U true j)) = if Bool.eqb i j then RtoC 1 else RtoC 0) /\
+  (forall G : m4 C, unitary4 G <->
+     forall i j, Cplus (Cplus (Cplus (Cmult (Cconj (G (false, false) i)) (G (false, false) j)) (Cmult (Cconj (G (false, true) i)) (G (false, true) j)))
+                              (Cmult (Cconj (G (true, false) i)) (G (true, false) j))) (Cmult (Cconj (G (true, true) i)) (G (true, true) j))
+                 = if Bool.eqb (fst i) (fst j) && Bool.eqb (snd i) (snd j) then RtoC 1 else RtoC 0) /\
+  (forall (A : m2 C) q, unitary_item (It1 A q) = unitary2 A) /\ (forall (G : m4 C) q1 q2, unitary_item (It2 G q1 q2) = unitary4 G) /\
+  (forall n (g : list bool -> Rdefinitions.R), (0 < n)%nat -> rsum (map g (binary_vector n)) = bsum Rdefinitions.R Rplus n g).
+Proof. repeat split; try (intros H; exact H). exact rsum_bv. Qed.
+Print Assumptions C03_norm_vocabulary.
+
+(* every list of unitary matrices on qubits < n (two-qubit ones on distinct qubits) preserves the squared norm of every state *)
+Theorem C03_unitary_items_preserve_norm :
+  forall (n : nat) (items : list (item C)), Forall (wf_item C n) items -> Forall unitary_item items ->
+  forall psi : state C, nrm2 n (sem C Cplus Cmult items psi) = nrm2 n psi.
+Proof. exact sem_norm. Qed.
+Print Assumptions C03_unitary_items_preserve_norm.
+
+(* the textbook matrices of the ideal circuit (X, SX, CX, ECR on (control, target), rz = diag(e^{-i th/2}, e^{i th/2})) at the
+   constants of C03_complex_instance are unitary *)
+Theorem C03_ideal_gates_unitary :
+  forall x : NoiseFreeRun.instr Rdefinitions.R, unitary_item (ideal_item C (RtoC 0) (RtoC 1) Cplus Cmult Copp Rdefinitions.R KC x).
+Proof. exact ideal_item_unitary. Qed.
+Print Assumptions C03_ideal_gates_unitary.
+
+(* NORM PRESERVATION of the ideal run, in the vocabulary of C03_end_to_end_C: every n, every well-formed program, every state *)
+Theorem C03_ideal_norm_preserved :
+  forall (n : nat) (p : list (NoiseFreeRun.instr Rdefinitions.R)) (psi0 : state C), Forall (NoiseFreeRun.wf_instr n) p ->
+  rsum (map (fun b => (Cmod (sem C Cplus Cmult (ideal_items C (RtoC 0) (RtoC 1) Cplus Cmult Copp Rdefinitions.R KC p) psi0 b) ^ 2)%R) (binary_vector n))
+  = rsum (map (fun b => (Cmod (psi0 b) ^ 2)%R) (binary_vector n)).
+Proof. exact ideal_norm_rsum. Qed.
+Print Assumptions C03_ideal_norm_preserved.
+
+(* END TO END for a normalised initial state: the ideal Born weights sum to 1 (no hypothesis 0 < total), and the value under
+   every key t is exactly the sum of the ideal circuit's Born probabilities over the basis states whose bits at the measured
+   qubits' ranks spell t -- no division *)
+Theorem C03_end_to_end_C_normalised :
+  forall (D : Type) (theta : nat -> Rdefinitions.R) (dur : nat -> D)
+         (a : args) (f : front_out) (data : list SimRun.instr) (psi0 : state C),
+  front a = Ok f -> a_circ a = CData true data -> Forall wf_qiskit data ->
+  NoDup (map fst (f_meas f)) -> f_nqubit f = BinInt.Z.of_nat (f_n f) ->
+  rsum (map (fun b => (Cmod (psi0 b) ^ 2)%R) (binary_vector (f_n f))) = 1%R ->
+  exists prog, translate Rdefinitions.R D theta dur (f_used f) (f_nqubit f) data = Ok prog /\
+    Forall (NoiseFreeRun.wf_instr (f_n f)) prog /\
+    let ideal := fun b => (Cmod (sem C Cplus Cmult (ideal_items C (RtoC 0) (RtoC 1) Cplus Cmult Copp Rdefinitions.R KC prog) psi0 b) ^ 2)%R in
+    rsum (map ideal (binary_vector (f_n f))) = 1%R /\
+    exists out, run_model Rdefinitions.R 0%R Rplus Rdiv rpos a
+                  (nf_perform C (RtoC 0) (RtoC 1) Cplus Cmult Copp Rdefinitions.R D KC Rdefinitions.R bornC theta dur data psi0) = Ok out /\
+      forall t, List.length t = List.length (f_meas f) ->
+        lookup Rdefinitions.R t out = Some (marginal_sum ideal (f_n f) (meas_ranks f) t).
+Proof. exact end_to_end_C_normalised. Qed.
+Print Assumptions C03_end_to_end_C_normalised.
+
+(* SHOTS: with the shot loop of _perform_simulation (sequential mode, any generator state g) around the noise-free shot, run()
+   returns what it returns with the single shot -- success or exception alike; any scalar ring T, any Born reading *)
+Theorem C03_shots_irrelevant :
+  forall (T : Type) (rO rI : T) (radd rmul : T -> T -> T) (ropp : T -> T) (A D : Type) (K : consts T A)
+         (born : T -> Rdefinitions.R) (theta : nat -> A) (dur : nat -> D) (data : list SimRun.instr) (psi0 : state T)
+         (sample : Type) (init : list sample -> BinNums.N -> sample) (mk : list Rdefinitions.R -> Shots.prog sample (list Rdefinitions.R)),
+  (forall v s p, fst (run_prog sample (mk v) s p) = v) ->
+  forall (a : args) (g : gen sample),
+  run_model Rdefinitions.R 0%R Rplus Rdiv rpos a
+    (seq_perform sample init mk g (nf_perform T rO rI radd rmul ropp A D K Rdefinitions.R born theta dur data psi0))
+  = run_model Rdefinitions.R 0%R Rplus Rdiv rpos a (nf_perform T rO rI radd rmul ropp A D K Rdefinitions.R born theta dur data psi0).
+Proof. exact shots_irrelevant. Qed.
+Print Assumptions C03_shots_irrelevant.
+
+(* the same for the pool: any cpu count, worker assignment and worker generators; execution and delivery order permutations of
+   the chunk indices (C09_pool_independent's hypotheses) *)
+Theorem C03_shots_irrelevant_parallel :
+  forall (T : Type) (rO rI : T) (radd rmul : T -> T -> T) (ropp : T -> T) (A D : Type) (K : consts T A)
+         (born : T -> Rdefinitions.R) (theta : nat -> A) (dur : nat -> D) (data : list SimRun.instr) (psi0 : state T)
+         (sample : Type) (init : list sample -> BinNums.N -> sample) (mk : list Rdefinitions.R -> Shots.prog sample (list Rdefinitions.R)),
+  (forall v s p, fst (run_prog sample (mk v) s p) = v) ->
+  forall (a : args) (cpu : BinNums.Z) (g : gen sample) (sc : sched) (ws : nat -> gen sample),
+  (forall f, front a = Ok f ->
+     let nch := List.length (chunks (BinInt.Z.to_nat (chunksize (f_shots f) (n_processes cpu))) (seq 0 (BinInt.Z.to_nat (f_shots f)))) in
+     Permutation (sc_exec sc) (seq 0 nch) /\ Permutation (sc_deliver sc) (seq 0 nch)) ->
+  run_model Rdefinitions.R 0%R Rplus Rdiv rpos a
+    (par_perform sample init mk cpu g sc ws (nf_perform T rO rI radd rmul ropp A D K Rdefinitions.R born theta dur data psi0))
+  = run_model Rdefinitions.R 0%R Rplus Rdiv rpos a (nf_perform T rO rI radd rmul ropp A D K Rdefinitions.R born theta dur data psi0).
+Proof. exact shots_irrelevant_parallel. Qed.
+Print Assumptions C03_shots_irrelevant_parallel.
+
+(* reading of seq_perform / par_perform *)
+Theorem C03_shots_vocabulary :
+  forall (sample : Type) (init : list sample -> BinNums.N -> sample) (mk : list Rdefinitions.R -> Shots.prog sample (list Rdefinitions.R))
+         (one : front_out -> res (list Rdefinitions.R)) (f : front_out),
+  (forall g, seq_perform sample init mk g one f =
+     rbind (one f) (fun v => rbind (perform_seq Rdefinitions.R 0%R Rplus Rdiv IZR sample init (mk v) (f_shots f)
+                                       (BinInt.Z.to_N (BinInt.Z.pow 2 (f_nqubit f))) g) (fun x => Ok (fst (fst x))))) /\
+  (forall cpu g sc ws, par_perform sample init mk cpu g sc ws one f =
+     rbind (one f) (fun v => rbind (perform_par Rdefinitions.R 0%R Rplus Rdiv IZR sample init (mk v) (f_shots f)
+                                       (BinInt.Z.to_N (BinInt.Z.pow 2 (f_nqubit f))) cpu g sc ws) (fun x => Ok (fst (fst x))))).
+Proof. intros. split; reflexivity. Qed.
+Print Assumptions C03_shots_vocabulary.
+
+(* COMPOSED: normalised initial state, any number of shots (>= 1 by run()'s validation), sequential or parallel: ONE dictionary
+   `out` is returned in every mode and schedule, and its value under every key t is the exact Born probability of the ideal
+   circuit marginalised to the measured qubits *)
+Theorem C03_end_to_end_C_shots :
+  forall (D : Type) (theta : nat -> Rdefinitions.R) (dur : nat -> D)
+         (a : args) (f : front_out) (data : list SimRun.instr) (psi0 : state C)
+         (sample : Type) (init : list sample -> BinNums.N -> sample) (mk : list Rdefinitions.R -> Shots.prog sample (list Rdefinitions.R)),
+  (forall v s p, fst (run_prog sample (mk v) s p) = v) ->
+  front a = Ok f -> a_circ a = CData true data -> Forall wf_qiskit data ->
+  NoDup (map fst (f_meas f)) -> f_nqubit f = BinInt.Z.of_nat (f_n f) ->
+  rsum (map (fun b => (Cmod (psi0 b) ^ 2)%R) (binary_vector (f_n f))) = 1%R ->
+  exists prog, translate Rdefinitions.R D theta dur (f_used f) (f_nqubit f) data = Ok prog /\
+    Forall (NoiseFreeRun.wf_instr (f_n f)) prog /\
+    let ideal := fun b => (Cmod (sem C Cplus Cmult (ideal_items C (RtoC 0) (RtoC 1) Cplus Cmult Copp Rdefinitions.R KC prog) psi0 b) ^ 2)%R in
+    let shot := nf_perform C (RtoC 0) (RtoC 1) Cplus Cmult Copp Rdefinitions.R D KC Rdefinitions.R bornC theta dur data psi0 in
+    rsum (map ideal (binary_vector (f_n f))) = 1%R /\
+    exists out,
+      (forall g, run_model Rdefinitions.R 0%R Rplus Rdiv rpos a (seq_perform sample init mk g shot) = Ok out) /\
+      (forall cpu g sc ws,
+         (let nch := List.length (chunks (BinInt.Z.to_nat (chunksize (f_shots f) (n_processes cpu))) (seq 0 (BinInt.Z.to_nat (f_shots f)))) in
+          Permutation (sc_exec sc) (seq 0 nch) /\ Permutation (sc_deliver sc) (seq 0 nch)) ->
+         run_model Rdefinitions.R 0%R Rplus Rdiv rpos a (par_perform sample init mk cpu g sc ws shot) = Ok out) /\
+      forall t, List.length t = List.length (f_meas f) ->
+        lookup Rdefinitions.R t out = Some (marginal_sum ideal (f_n f) (meas_ranks f) t).
+Proof. exact end_to_end_C_shots. Qed.
+Print Assumptions C03_end_to_end_C_shots.
+
+(* non-vacuity: the shot program that reads no sample is deterministic; |00> is normalised on the two qubits of
+   C03_end_to_end_example (whose other hypotheses are shown there); 3 shots *)
+Example C03_shots_example :
+  (forall (v : list Rdefinitions.R) (s : BinNums.N -> unit) (p : BinNums.N), fst (run_prog unit (Ret v) s p) = v) /\
+  rsum (map (fun b => (Cmod (if key_eqb b [false; false] then RtoC 1 else RtoC 0) ^ 2)%R) (binary_vector 2)) = 1%R.
+Proof.
+  split; [reflexivity|]. rewrite rsum_bv by auto. cbn [bsum key_eqb Bool.eqb andb]. rewrite Cmod_1, Cmod_0. ring.
+Qed.
